@@ -87,38 +87,56 @@ Shape(def, run) ==
 
 LastBang(run, k) == k >= 1 /\ Delivered(run) = k /\ run.items[k].r = "!"
 
-(* candidate values of a threshold: the smallest value that fits is the lower bound inherited from the   *)
-(* previous threshold or the successor of a limit that was run                                            *)
-Cands(runs, lo) == {lo} \cup {runs[j].lim + 1 : j \in 1..Len(runs)}
+(* what the search needs to know about a run: its limit, how many solutions it delivered, whether it was cut off *)
+Info(runs) == [j \in 1..Len(runs) |-> [l |-> runs[j].lim, n |-> Delivered(runs[j]), x |-> HasExc(runs[j])]]
 
-Fits(def, runs, det, i, x) ==
-  LET k == K(def) IN
+(* threshold i (i = k + 1: the final cost) has value x *)
+Fits(k, info, det, i, x) ==
   IF i <= k
-  THEN \A j \in 1..Len(runs) : /\ i <= Delivered(runs[j]) => x <= runs[j].lim
-                               /\ i = Delivered(runs[j]) + 1 => x > runs[j].lim
+  THEN \A j \in 1..Len(info) : /\ i <= info[j].n => x <= info[j].l
+                               /\ i = info[j].n + 1 => x > info[j].l
   ELSE IF det THEN TRUE
-  ELSE \A j \in 1..Len(runs) : Delivered(runs[j]) = k =>
-           IF HasExc(runs[j]) THEN x > runs[j].lim ELSE x <= runs[j].lim
+  ELSE \A j \in 1..Len(info) : info[j].n = k => IF info[j].x THEN x > info[j].l ELSE x <= info[j].l
+
+(* candidate values of threshold i: the smallest value that fits is the lower bound inherited from the previous *)
+(* threshold or the successor of a limit at which the run stopped just before solution i                         *)
+Cands(info, i, lo) == {lo} \cup {info[j].l + 1 : j \in {j \in 1..Len(info) : info[j].n + 1 = i}}
 
 RECURSIVE Search(_, _, _, _, _, _, _)
-Search(def, runs, M, h, det, i, prev) ==
-  IF i = K(def) + 2 THEN TRUE
-  ELSE LET lo == IF i <= K(def) THEN Sat(prev + h, M) ELSE prev
-           S == {x \in Cands(runs, lo) : x >= lo /\ Fits(def, runs, det, i, x)}
-       IN S # {} /\ Search(def, runs, M, h, det, i + 1, MinOf(S))
+Search(k, info, M, h, det, i, prev) ==
+  IF i = k + 2 THEN TRUE
+  ELSE LET lo == IF i <= k THEN Sat(prev + h, M) ELSE prev
+           S == {x \in Cands(info, i, lo) : x >= lo /\ Fits(k, info, det, i, x)}
+       IN S # {} /\ Search(k, info, M, h, det, i + 1, MinOf(S))
 
 FastExplained(def, runs, M, h) ==
   /\ \A j \in 1..Len(runs) : Shape(def, runs[j])
   /\ \E det \in Dets(def) :
        /\ \A j \in 1..Len(runs) : Delivered(runs[j]) = K(def) => (LastBang(runs[j], K(def)) <=> det)
-       /\ Search(def, runs, M, h, det, 1, 0)
+       /\ Search(K(def), Info(runs), M, h, det, 1, 0)
+
+(* two runs with the same limit and different outcomes (when the runs are sorted by limit it is enough to look *)
+(* at neighbours)                                                                                            *)
+NonDet(runs) ==
+  IF \A j \in 1..(Len(runs) - 1) : runs[j].lim <= runs[j + 1].lim
+  THEN \E j \in 1..(Len(runs) - 1) : runs[j].lim = runs[j + 1].lim /\ Obs(runs[j]) # Obs(runs[j + 1])
+  ELSE \E i, j \in 1..Len(runs) : runs[i].lim = runs[j].lim /\ Obs(runs[i]) # Obs(runs[j])
 
 (* ---- diagnosis of a goal's runs (the verdict "ok" is FastExplained) ---- *)
+(* a run that follows the definition up to some solution and then reports the inner call as exceeded although *)
+(* the inner call run alone still has a solution there: "the inner call behaves as when run alone" is violated   *)
+InnerEarly(def, run) ==
+  \E i \in 1..Len(run.items) :
+     /\ i <= K(def) /\ run.items[i].r1 = EXC /\ def.sols[i].r1 # EXC /\ def.sols[i].r1 # "-"
+     /\ \A p \in 1..(i - 1) : run.items[p].s = def.sols[p].s /\ run.items[p].r1 = def.sols[p].r1
+
 Verdict(def, runs, M, h) ==
-  IF \E j \in 1..Len(runs) : ~Shape(def, runs[j]) THEN "shape"
-  ELSE IF \E i, j \in 1..Len(runs) : runs[i].lim = runs[j].lim /\ Obs(runs[i]) # Obs(runs[j]) THEN "nondet"
+  IF \E j \in 1..Len(runs) : ~Shape(def, runs[j])
+  THEN (IF \E j \in 1..Len(runs) : runs[j].end \in {"stop", "ball"} /\ InnerEarly(def, runs[j])
+        THEN "shape_inner_early" ELSE "shape")
+  ELSE IF NonDet(runs) THEN "nondet"
   ELSE IF ~FastExplained(def, runs, M, 0) THEN "nonmonotone"
-  ELSE IF ~FastExplained(def, runs, M, h) THEN "count"
+  ELSE IF h > 0 /\ ~FastExplained(def, runs, M, h) THEN "count"
   ELSE "ok"
 
 (* ---- goals built from an inference-limited call ----                                               *)
